@@ -9,7 +9,8 @@ Require Import NV.C03.Model NV.C03.PtwBaseQ NV.C03.Gen_PtwQ.
 Definition lift (f : Q -> Q) (x : Qc) : Qc := Q2Qc (f (this x)).
 
 Inductive qname :=
-| QNreciprocal | QNabs | QNabsolute | QNsign | QNunitstep | QNpower (expo : Z) | QNclip (a_min a_max : Q).
+| QNreciprocal | QNabs | QNabsolute | QNsign | QNunitstep | QNpower (expo : Z) | QNclip (a_min a_max : Q)
+| QNsqrt | QNlog.   (* partial exact primitives, see PtwBaseQ.v; used by C04 *)
 
 Definition qtab (p : qname) : ptw_entry Qc :=
   match p with
@@ -20,6 +21,8 @@ Definition qtab (p : qname) : ptw_entry Qc :=
   | QNunitstep => Build_ptw_entry (lift qptwp_unitstep) (lift qptw_unitstep) (lift qdptw_unitstep)
   | QNpower n => Build_ptw_entry (lift (qptwp_power n)) (lift (qptw_power n)) (lift (qdptw_power n))
   | QNclip a b => Build_ptw_entry (lift (qptwp_clip a b)) (lift (qptw_clip a b)) (lift (qdptw_clip a b))
+  | QNsqrt => Build_ptw_entry (lift qptwp_sqrt) (lift qptw_sqrt) (lift qdptw_sqrt)
+  | QNlog => Build_ptw_entry (lift qptwp_log) (lift qptw_log) (lift qdptw_log)
   end.
 
 Definition q (n : Z) (d : positive) : Qc := Q2Qc (n # d).
